@@ -66,12 +66,139 @@ type reqAt struct {
 	st   lockState
 }
 
+// ---- callee resolution (syntactic type hints) ----
+//
+// callTargets[call] = the functions ("pkg.Type.method" / "pkg.func") a call may mean.  The receiver's type
+// comes from: the enclosing method's receiver, struct field declarations (also element types of map /
+// slice fields when ranged over or indexed), locals bound by `x := &T{…}`, `x := T{…}`, `var x *T`,
+// `for _, x := range <resolvable>`.  An unresolved receiver means any type of the package that has the
+// method EXCEPT the enclosing type (a call on some other object cannot re-enter the same instance's mutex
+// through its own type).
+var (
+	callTargets  = map[*ast.CallExpr][]string{}
+	structFields = map[string]map[string]ast.Expr{} // pkg.Type -> field -> type
+	methodsOf    = map[string][]string{}            // pkg.name -> pkg.Type.name …
+	funcsOf      = map[string]bool{}                // pkg.name (plain functions)
+)
+
+func namedOf(e ast.Expr) (name string, elem ast.Expr) {
+	switch t := e.(type) {
+	case *ast.StarExpr:
+		return namedOf(t.X)
+	case *ast.Ident:
+		return t.Name, nil
+	case *ast.MapType:
+		return "", t.Value
+	case *ast.ArrayType:
+		return "", t.Elt
+	}
+	return "", nil
+}
+
+type resolver struct {
+	pkg, recv, typ string
+	locals         map[string]ast.Expr // local -> type expression
+}
+
+// typeExprOf returns a type expression for e, or nil
+func (r *resolver) typeExprOf(e ast.Expr) ast.Expr {
+	switch t := e.(type) {
+	case *ast.ParenExpr:
+		return r.typeExprOf(t.X)
+	case *ast.Ident:
+		if t.Name == r.recv && r.typ != "" {
+			return &ast.Ident{Name: r.typ}
+		}
+		return r.locals[t.Name]
+	case *ast.SelectorExpr:
+		if bt := r.typeExprOf(t.X); bt != nil {
+			if n, _ := namedOf(bt); n != "" {
+				return structFields[r.pkg+"."+n][t.Sel.Name]
+			}
+		}
+	case *ast.IndexExpr:
+		if bt := r.typeExprOf(t.X); bt != nil {
+			if _, el := namedOf(bt); el != nil {
+				return el
+			}
+		}
+	case *ast.UnaryExpr:
+		if t.Op == token.AND {
+			if cl, ok := t.X.(*ast.CompositeLit); ok {
+				return cl.Type
+			}
+		}
+	case *ast.CompositeLit:
+		return t.Type
+	case *ast.TypeAssertExpr:
+		return t.Type
+	}
+	return nil
+}
+
+func resolveCalls(pkg, recv, typ string, body *ast.BlockStmt) {
+	r := &resolver{pkg: pkg, recv: recv, typ: typ, locals: map[string]ast.Expr{}}
+	ast.Inspect(body, func(n ast.Node) bool {
+		switch t := n.(type) {
+		case *ast.AssignStmt:
+			if t.Tok == token.DEFINE && len(t.Rhs) == 1 && len(t.Lhs) >= 1 {
+				if id, ok := t.Lhs[0].(*ast.Ident); ok {
+					if te := r.typeExprOf(t.Rhs[0]); te != nil {
+						r.locals[id.Name] = te
+					}
+				}
+			}
+		case *ast.RangeStmt:
+			if te := r.typeExprOf(t.X); te != nil {
+				if _, el := namedOf(te); el != nil {
+					if id, ok := t.Value.(*ast.Ident); ok {
+						r.locals[id.Name] = el
+					}
+				}
+			}
+		case *ast.DeclStmt:
+			if gd, ok := t.Decl.(*ast.GenDecl); ok {
+				for _, sp := range gd.Specs {
+					if vs, ok := sp.(*ast.ValueSpec); ok && vs.Type != nil {
+						for _, id := range vs.Names {
+							r.locals[id.Name] = vs.Type
+						}
+					}
+				}
+			}
+		case *ast.CallExpr:
+			switch f := t.Fun.(type) {
+			case *ast.Ident:
+				if funcsOf[pkg+"."+f.Name] {
+					callTargets[t] = []string{pkg + "." + f.Name}
+				}
+			case *ast.SelectorExpr:
+				if te := r.typeExprOf(f.X); te != nil {
+					if n, _ := namedOf(te); n != "" {
+						if _, isStruct := structFields[pkg+"."+n]; isStruct {
+							callTargets[t] = []string{pkg + "." + n + "." + f.Sel.Name}
+							return true
+						}
+					}
+				}
+				for _, m := range methodsOf[pkg+"."+f.Sel.Name] {
+					if typ == "" || !strings.HasPrefix(m, pkg+"."+typ+".") {
+						callTargets[t] = append(callTargets[t], m)
+					}
+				}
+			}
+		}
+		return true
+	})
+}
+
 // requesters: pkg.name of every function that (transitively, by simple name inside its package) makes a
 // blocking request: a call through a field named …pathManager / .path, or a channel send/receive
 var requesters = map[string]bool{}
 
 type lockWalker struct {
 	pkg       string
+	calls     []reqAt // every call x.name(…) / name(…) with the lock states it is made in
 	reqs      []reqAt
 	recv, typ string
 	defers    lockState // deferred unlocks registered so far (applied at exits)
@@ -192,6 +319,7 @@ func (w *lockWalker) stmt(s ast.Stmt, in []lockState, label string) flow {
 		return flow{fall: in}
 	case *ast.ReturnStmt:
 		w.collectLits(t)
+		w.noteRequests(t, in)
 		for _, st := range in {
 			w.exit(st)
 		}
@@ -218,8 +346,10 @@ func (w *lockWalker) stmt(s ast.Stmt, in []lockState, label string) flow {
 	case *ast.IfStmt:
 		if t.Init != nil {
 			w.collectLits(t.Init)
+			w.noteRequests(t.Init, in)
 		}
 		w.collectLits(t.Cond)
+		w.noteRequests(t.Cond, in)
 		a := w.block(t.Body.List, in)
 		var b flow
 		if t.Else != nil {
@@ -321,6 +451,18 @@ func (w *lockWalker) stmt(s ast.Stmt, in []lockState, label string) flow {
 // noteRequests records calls like x.pathManager.AddReader(…) / x.PathManager.Y(…) and channel operations in a
 // simple statement, with the lock states they are made in
 func (w *lockWalker) noteRequests(n ast.Node, in []lockState) {
+	// calls (also those inside function literals that are called on the spot, e.g. struct-literal fields
+	// computed by `func() T {…}()`)
+	ast.Inspect(n, func(m ast.Node) bool {
+		if c, ok := m.(*ast.CallExpr); ok {
+			for _, tgt := range callTargets[c] {
+				for _, st := range in {
+					w.calls = append(w.calls, reqAt{tgt, st.clone()})
+				}
+			}
+		}
+		return true
+	})
 	ast.Inspect(n, func(m ast.Node) bool {
 		what := ""
 		switch t := m.(type) {
@@ -334,7 +476,7 @@ func (w *lockWalker) noteRequests(n ast.Node, in []lockState) {
 				} else if requesters[w.pkg+"."+s.Sel.Name] {
 					what = "call " + s.Sel.Name
 				}
-			} else if id, ok := t.Fun.(*ast.Ident); ok && requesters[w.pkg+"."+id.Name] {
+			} else if id, ok := t.Fun.(*ast.Ident); ok && funcsOf[w.pkg+"."+id.Name] && requesters[w.pkg+"."+id.Name] {
 				what = "call " + id.Name
 			}
 		case *ast.SendStmt:
@@ -359,6 +501,8 @@ type lockRow struct {
 	exits   []int
 	loopsOK bool
 	across  []string // blocking requests made while the mutex is held
+	pkg     string
+	held    []string // simple names of functions called while the mutex is held
 }
 
 func analyseLocks(pkg, name, recv, typ string, body *ast.BlockStmt, rows *[]lockRow) {
@@ -408,6 +552,12 @@ func analyseLocks(pkg, name, recv, typ string, body *ast.BlockStmt, rows *[]lock
 				r.across = addUniqS(r.across, q.what)
 			}
 		}
+		r.pkg = w.pkg
+		for _, q := range w.calls {
+			if entry+q.st[m] > 0 {
+				r.held = addUniqS(r.held, q.what)
+			}
+		}
 		*rows = append(*rows, r)
 	}
 	for i, fl := range w.lits {
@@ -429,13 +579,15 @@ func lockTable(repo string) []lockRow {
 	for _, f := range []string{"core.go", "path_manager.go", "path.go"} {
 		files = append(files, filepath.Join(repo, "internal/core", f))
 	}
-	ents, err := os.ReadDir(filepath.Join(repo, "internal/servers/hls"))
-	if err != nil {
-		die("%v", err)
-	}
-	for _, e := range ents {
-		if n := e.Name(); strings.HasSuffix(n, ".go") && !strings.HasSuffix(n, "_test.go") {
-			files = append(files, filepath.Join(repo, "internal/servers/hls", n))
+	for _, srv := range []string{"hls", "rtsp", "rtmp", "srt", "webrtc", "moq"} {
+		ents, err := os.ReadDir(filepath.Join(repo, "internal/servers", srv))
+		if err != nil {
+			die("%v", err)
+		}
+		for _, e := range ents {
+			if n := e.Name(); strings.HasSuffix(n, ".go") && !strings.HasSuffix(n, "_test.go") {
+				files = append(files, filepath.Join(repo, "internal/servers", srv, n))
+			}
 		}
 	}
 	var rows []lockRow
@@ -448,16 +600,65 @@ func lockTable(repo string) []lockRow {
 		}
 		parsedFiles = append(parsedFiles, f)
 	}
+	// pass 0: declarations, then the callees of every call
+	for _, f := range parsedFiles {
+		pkg := f.Name.Name
+		for _, d := range f.Decls {
+			switch t := d.(type) {
+			case *ast.GenDecl:
+				for _, sp := range t.Specs {
+					if ts, ok := sp.(*ast.TypeSpec); ok {
+						if st, ok := ts.Type.(*ast.StructType); ok {
+							m := map[string]ast.Expr{}
+							for _, fl := range st.Fields.List {
+								for _, n := range fl.Names {
+									m[n.Name] = fl.Type
+								}
+							}
+							structFields[pkg+"."+ts.Name.Name] = m
+						}
+					}
+				}
+			case *ast.FuncDecl:
+				if t.Recv != nil && len(t.Recv.List) == 1 {
+					k := pkg + "." + t.Name.Name
+					methodsOf[k] = append(methodsOf[k], pkg+"."+baseType(t.Recv.List[0].Type)+"."+t.Name.Name)
+				} else {
+					funcsOf[pkg+"."+t.Name.Name] = true
+				}
+			}
+		}
+	}
+	for _, f := range parsedFiles {
+		pkg := f.Name.Name
+		for _, d := range f.Decls {
+			if fd, ok := d.(*ast.FuncDecl); ok && fd.Body != nil {
+				recv, typ := "", ""
+				if fd.Recv != nil && len(fd.Recv.List) == 1 {
+					typ = baseType(fd.Recv.List[0].Type)
+					if len(fd.Recv.List[0].Names) == 1 {
+						recv = fd.Recv.List[0].Names[0].Name
+					}
+				}
+				resolveCalls(pkg, recv, typ, fd.Body)
+			}
+		}
+	}
 	// pass 1: who makes blocking requests (fixpoint over calls by simple name inside the package)
 	type fnBody struct {
 		pkg, name string
+		full      string // pkg.Type.name or pkg.name
 		body      *ast.BlockStmt
 	}
 	var all []fnBody
 	for _, f := range parsedFiles {
 		for _, d := range f.Decls {
 			if fd, ok := d.(*ast.FuncDecl); ok && fd.Body != nil {
-				all = append(all, fnBody{f.Name.Name, fd.Name.Name, fd.Body})
+				full := f.Name.Name + "." + fd.Name.Name
+				if fd.Recv != nil && len(fd.Recv.List) == 1 {
+					full = f.Name.Name + "." + baseType(fd.Recv.List[0].Type) + "." + fd.Name.Name
+				}
+				all = append(all, fnBody{f.Name.Name, fd.Name.Name, full, fd.Body})
 			}
 		}
 	}
@@ -482,7 +683,7 @@ func lockTable(repo string) []lockRow {
 						if strings.HasSuffix(r, "athManager") || strings.HasSuffix(r, ".path") || requesters[fb.pkg+"."+s.Sel.Name] {
 							req = true
 						}
-					} else if id, ok := t.Fun.(*ast.Ident); ok && requesters[fb.pkg+"."+id.Name] {
+					} else if id, ok := t.Fun.(*ast.Ident); ok && funcsOf[fb.pkg+"."+id.Name] && requesters[fb.pkg+"."+id.Name] {
 						req = true
 					}
 				}
@@ -512,6 +713,51 @@ func lockTable(repo string) []lockRow {
 				typ = pkg + "." + typ
 			}
 			analyseLocks(pkg, name, recv, typ, fd.Body, &rows)
+		}
+	}
+	// recursive locking: who (transitively, through resolved calls) takes which mutex object …
+	lockers := map[string]map[string]bool{} // pkg.Type.name -> mutex objects
+	addLocker := func(k, obj string) bool {
+		if lockers[k] == nil {
+			lockers[k] = map[string]bool{}
+		}
+		if lockers[k][obj] {
+			return false
+		}
+		lockers[k][obj] = true
+		return true
+	}
+	for _, r := range rows {
+		fn := r.fn
+		if i := strings.Index(fn, ".func"); i >= 0 {
+			fn = fn[:i] // a literal inside the function
+		}
+		addLocker(fn, strings.TrimSuffix(r.mutex, "(R)"))
+	}
+	for changed := true; changed; {
+		changed = false
+		for _, fb := range all {
+			ast.Inspect(fb.body, func(n ast.Node) bool {
+				if c, ok := n.(*ast.CallExpr); ok {
+					for _, tgt := range callTargets[c] {
+						for obj := range lockers[tgt] {
+							if addLocker(fb.full, obj) {
+								changed = true
+							}
+						}
+					}
+				}
+				return true
+			})
+		}
+	}
+	// … and which function calls such a function while it already holds that mutex object
+	for _, r := range rows {
+		obj := strings.TrimSuffix(r.mutex, "(R)")
+		for _, callee := range r.held {
+			if lockers[callee][obj] {
+				recursive = append(recursive, [3]string{r.fn, r.mutex, callee})
+			}
 		}
 	}
 	// the event loops (`run` with a `for { select … }`) and the lock-taking functions they call directly
@@ -565,6 +811,7 @@ func lockTable(repo string) []lockRow {
 var (
 	loopNames []string
 	loopCalls [][2]string
+	recursive [][3]string
 )
 
 func emitLocks(w func(string, ...any), rows []lockRow) {
@@ -635,5 +882,13 @@ func emitLocks(w func(string, ...any), rows []lockRow) {
 		lc = append(lc, fmt.Sprintf("(%d, %d)", li, fnID[c[1]]))
 	}
 	w("def loopLockCalls : List (Nat × Nat) := [%s]", strings.Join(lc, ", "))
+	w("/-- (function, mutex): the function calls, while it holds the mutex, a function of its package that")
+	w("(transitively, by simple name) takes the same mutex object again -/")
+	var rl []string
+	for _, r := range recursive {
+		rl = append(rl, fmt.Sprintf("(%d, %d)", fnID[r[0]], muID[r[1]]))
+		w("-- recursive: %s holds %s and calls %s", r[0], r[1], r[2])
+	}
+	w("def recursiveLocks : List (Nat × Nat) := [%s]", strings.Join(rl, ", "))
 	w("")
 }
